@@ -479,7 +479,9 @@ func (db *DB) getActiveFileWriteOff() (off int64, err error) {
 			db.ActiveFile.ActualSize = off
 
 		} else {
-			if err == io.EOF {
+			// a record that fails its checksum at the tail of the active file
+			// was being written when the process died: the log ends before it
+			if err == io.EOF || err == ErrCrc {
 				break
 			}
 
@@ -553,6 +555,12 @@ func (db *DB) parseDataFiles(dataFileIds []int) (unconfirmedRecords []*Record, c
 				}
 
 				if off >= db.opt.SegmentSize {
+					break
+				}
+
+				// a record that fails its checksum was being written when the
+				// process died (or when a write failed): the file ends before it
+				if err == ErrCrc {
 					break
 				}
 				f.rwManager.Close()
